@@ -566,19 +566,30 @@ _VFS = ("the span loop `for _ in 0..span_count { .. pos += span_size }` runs aft
 _CK = ("checksum_line_end is either raw.len() or start + pos + 1 with pos < len(raw[start..]) (computed inside a map_or closure the engine does not enter), so "
        "checksum_line_end <= raw.len(); hex_end <= checksum_line_end; raw[checksum_line_end - 1] / raw[hex_end - 1] sit behind `> 0` tests and raw[hex_start..hex_end] "
        "behind `hex_start < hex_end`")
+_EP = ("positions come from `windows(n).rposition(..)` / `.iter().position(..)` over the same buffer (pos + n <= len, engine has no model for iterator positions), ends are "
+       "`len` or `start + pos`, and every range is behind an explicit `end > start` test - each site read and judged SAFE in findings/SUMMARY_T.md")
 DISCHARGED_R3 = {
+    "C02.R3|cascette_protocol::mime_parser::extract_checksum|range|input-length": _EP,
+    "C02.R3|cascette_protocol::mime_parser::extract_checksum|bounds|input-length": _CK,
+    "C02.R3|cascette_protocol::v1_mime::extract_checksum_epilogue|range|input-length": _EP,
+    "C02.R3|cascette_client_storage::lru::lru_file::deserialize|range|input-length":
+        "validate_file_size(data.len()) - a bool-returning validator whose true edge the engine does not model - accepted only len >= 28 with (len - 28) % 20 == 0, and "
+        "entry_count = (len - 28) / 20: offset + 20 = 28 + 20 * i + 20 <= len for i < entry_count",
+    "C02.R3|cascette_formats::patch_archive::compression::decompress_patch_data|range|input-length":
+        "chunk_end = min(saturating_add(saturating_mul(size, count), offset), len) or len, and the slice sits behind `offset >= data.len() -> break`: offset < len, "
+        "chunk_end >= offset (saturating_add never goes below its operand), chunk_end <= len. The value is a phi of two branches, which loses the min / saturating facts",
     "C02.R3|cascette_protocol::mime_parser::extract_checksum|bounds|loop-carried": _CK,
     "C02.R3|cascette_protocol::mime_parser::extract_checksum|range|loop-carried": _CK,
     "C02.R3|cascette_formats::tvfs::vfs_table::<VfsTable>::parse|bounds|loop-carried": _VFS,
     "C02.R3|cascette_formats::tvfs::vfs_table::<VfsTable>::parse|range|loop-carried": _VFS,
     "C02.R3|cascette_formats::tvfs::vfs_table::<VfsTable>::read_entry_at|bounds|loop-carried": _VFS,
     "C02.R3|cascette_formats::tvfs::vfs_table::<VfsTable>::read_entry_at|range|loop-carried": _VFS,
-    "C02.R3|cascette_formats::patch_index::parser::parse_block2|range|input":
+    "C02.R3|cascette_formats::patch_index::parser::parse_block2|range|loop-carried":
         "`&data[pos..]` in `for _ in 0..entry_count { .. pos += esize }` after `data.len() >= 5 + entry_count * esize` was checked: pos = 5 + i*esize "
         "<= 5 + entry_count*esize <= len. The bound is a product of two input values (non-linear), outside the engine's linear facts",
-    "C02.R3|cascette_formats::patch_index::parser::parse_block8|range|input":
+    "C02.R3|cascette_formats::patch_index::parser::parse_block8|range|loop-carried":
         "same loop as parse_block2 with a different fixed prefix: pos = prefix + i*esize <= prefix + entry_count*esize <= len (checked before the loop)",
-    "C02.R3|cascette_formats::patch_index::parser::parse_patch_index|range|field BlockDescriptor.block_size":
+    "C02.R3|cascette_formats::patch_index::parser::parse_patch_index|range|input-length":
         "`&data[offset..offset + block_size]` with offset = header.block_offset(i) = header_size + sum of the preceding block sizes: PatchIndexHeader::parse "
         "(which produced `header` a few lines up) rejects the file unless data.len() >= header_size + sum of ALL block sizes, and parse_patch_index itself "
         "checks header.data_size == data.len(). A sum over a Vec is outside the engine's linear facts",
@@ -620,7 +631,87 @@ def premise_patch_index_total(prog):
 
 
 DISCHARGE_PREMISES = {
-    "C02.R3|cascette_formats::patch_index::parser::parse_patch_index|range|field BlockDescriptor.block_size": premise_patch_index_total,
+    "C02.R3|cascette_formats::patch_index::parser::parse_patch_index|range|input-length": premise_patch_index_total,
+}
+
+
+def premise_archive_size_validated(prog):
+    """ArchiveIndex::parse propagates the error of IndexFooter::validate_file_size before it subtracts footer / TOC sizes from the file size"""
+    bs = [b for b in prog.bodies.values() if b.item == "parse" and (b.self_ty or "").endswith("archive::index::ArchiveIndex") and not b.root]
+    if not bs:
+        return "ArchiveIndex::parse not found"
+    b = bs[0]
+    vs = [c for c in b.calls if re.search(r"IndexFooter::validate_file_size$", c.name)]
+    if not vs:
+        return "ArchiveIndex::parse no longer calls IndexFooter::validate_file_size"
+    from .c05 import enum_switches_through
+    for v in vs:
+        for (ebb, m, other, via) in enum_switches_through(b, v.dest[0]):
+            if via or (1 in m and not (b.reachable([m[1]]) & set(assigns_variant_ok(b)))):
+                return None
+    return "the result of validate_file_size is not propagated"
+
+
+def assigns_variant_ok(b):
+    from .lib import assigns_variant
+    return assigns_variant(b, "Ok", adt_pat=r"result::Result")
+
+
+_AS = ("IndexFooter::validate_file_size(file_size)? ran a few lines up and accepts only file_size == toc_entries * page_size + toc_entries * toc_entry_size + footer_size "
+       "(an equality), so file_size - footer_size - toc_size and data_size - chunk_offset (chunk_offset <= (toc_entries - 1) * page_size) cannot go below zero. "
+       "Products of header fields are outside the engine's linear facts")
+DISCHARGED_R4 = {
+    "C02.R4|cascette_formats::archive::index::<ArchiveIndex>::parse|overflow|Sub in u64|input": (_AS, premise_archive_size_validated),
+    "C02.R4|cascette_formats::archive::index::<ArchiveIndex>::parse|overflow|Sub in usize|input": (_AS, premise_archive_size_validated),
+}
+
+
+def premise_espec_cursor_on_boundary(prog):
+    """every write to espec::parser::Parser.pos adds the UTF-8 length of a char, or adds 1 on the true edge of a `char::is_ascii_*` test (in a body
+    that reads its chars with peek()): the cursor starts at 0 and moves only over whole characters"""
+    bs = [b for b in prog.bodies.values() if re.search(r"espec::parser::Parser\b", b.self_ty or "")]
+    if not bs:
+        return "espec::parser::Parser has no bodies"
+    from .lib import field_writes, bool_switches
+    seen = 0
+    for b in bs:
+        for (i, j, st_) in field_writes(b, "pos"):
+            seen += 1
+            r = st_["r"]
+            src = r["o"][0] if r["k"] == "Use" else None
+            if src is None or src["k"] not in ("cp", "mv") or len(src["p"]) != 2:
+                return "%s writes Parser.pos with something other than `pos + k` at line %s" % (b.id, st_.get("l"))
+            dfn = [s2 for (_i, _j, s2) in b.stmts() if s2["p"] == [src["p"][0]] and s2["r"]["k"] == "Bin" and s2["r"]["op"] == "AddWithOverflow"]
+            if len(dfn) != 1:
+                return "%s writes Parser.pos with something other than `pos + k` at line %s" % (b.id, st_.get("l"))
+            o0, o1 = dfn[0]["r"]["o"]
+            if not (o0["k"] in ("cp", "mv") and place_fields(o0["p"]) and place_fields(o0["p"])[-1] == "pos"):
+                return "%s: the new Parser.pos at line %s is not the old one plus a step" % (b.id, st_.get("l"))
+            if o1["k"] in ("cp", "mv") and len(o1["p"]) == 1:
+                calls = [c for c in b.calls if c.dest and c.dest[0] == o1["p"][0] and re.search(r"<impl char>::len_utf8$", c.name)]
+                if calls:
+                    continue
+                return "%s advances Parser.pos by a step that is not `ch.len_utf8()` at line %s" % (b.id, st_.get("l"))
+            if o1["k"] == "c" and str(o1.get("v")) == "1":
+                asc = [c for c in b.calls if re.search(r"<impl char>::is_ascii(_\w+)?$", c.name) and c.dest]
+                if not any(re.search(r"Parser(::<.*>)?::peek$", c.name) for c in b.calls):
+                    return "%s advances Parser.pos by 1 without reading the char with peek()" % b.id
+                if any(b.dominates(tt, i) for c in asc for (_sb, tt, _ft) in bool_switches(b, c.dest[0])):
+                    continue
+                return "%s advances Parser.pos by one byte at line %s without an is_ascii_* test of the char there" % (b.id, st_.get("l"))
+            return "%s advances Parser.pos by an unrecognised step at line %s" % (b.id, st_.get("l"))
+    if seen < 4:
+        return "only %d write(s) to Parser.pos found (4 confirmed by hand)" % seen
+    return None
+
+
+_ES = ("the cursor `pos` of espec::parser::Parser starts at 0 and every write to it (checked on each run) is `pos += ch.len_utf8()` or `pos += 1` behind "
+       "an `is_ascii_*` test of the char that peek() read at `pos`: it only ever rests on character boundaries, and `start` is a copy of it")
+DISCHARGED_R7 = {
+    "C02.R7|cascette_formats::espec::parser::<Parser>::peek|charboundary": (_ES, premise_espec_cursor_on_boundary),
+    "C02.R7|cascette_formats::espec::parser::<Parser>::parse_number|charboundary": (_ES, premise_espec_cursor_on_boundary),
+    "C02.R7|cascette_formats::espec::parser::<Parser>::parse_identifier|charboundary": (_ES, premise_espec_cursor_on_boundary),
+    "C02.R7|cascette_formats::espec::parser::<Parser>::parse_hex_until|charboundary": (_ES, premise_espec_cursor_on_boundary),
 }
 
 
@@ -644,17 +735,68 @@ def r3_bounds(ctx, ents, cl, krate_prefix="cascette_", discharged=DISCHARGED_R3)
     res, req = bounds.analyse_closure(prog, cl, krate_prefix=krate_prefix)
     cnt = collections.Counter()
     ocnt = collections.Counter()
+    dcnt = collections.Counter()
+    ctx.rule("C02.R6", "every division / remainder whose divisor derives from parser input has a divisor that E-bounds proves non-zero")
     nd = collections.Counter()
+    bcnt = collections.Counter()
+    ctx.rule("C02.R7", "every range index / split_at on a str in the parser closure uses offsets that are character boundaries by construction: 0, the length, "
+                       "the start of a `find` match, or its end when the pattern's byte length is exact")
     ctx.rule("C02.R4", "no addition / multiplication / subtraction in u8 / u16 / u32 on input-derived operands that can leave the type's range, and no u64 / usize "
                        "addition / multiplication with a 64-bit input number (parsed from text or read as a u64) as operand (E-bounds value ranges)")
     for bid in sorted(res):
         a = res[bid]
         for sk in a.sinks:
+            if sk.kind == "charboundary":
+                # R7: `&s[a..b]` / `s.split_at(m)` on a str panics when an offset falls inside a multi-byte character - whatever the length says
+                if sk.proven:
+                    bcnt["proven"] += 1
+                    ctx.ok("C02.R7", [bid, "charboundary", sk.bb], "offsets are character boundaries", sk.loc, nontrivial=True)
+                    continue
+                ctx.saw(a.b)
+                k7 = ctx._stable("|".join(["C02.R7", bid, "charboundary"]))
+                if k7 in DISCHARGED_R7:
+                    why_not = DISCHARGED_R7[k7][1](prog) if DISCHARGED_R7[k7][1] else None
+                    if why_not is None:
+                        bcnt["discharged by key"] += 1
+                        ctx.ok("C02.R7", [bid, "charboundary", "discharged", sk.bb], "discharged by reading: " + DISCHARGED_R7[k7][0], sk.loc,
+                               sample={"site": sk.loc, "reason": DISCHARGED_R7[k7][0]})
+                        continue
+                    ctx.bad("C02.R7", [bid, "charboundary", "premise"],
+                            "%s: the str slice at %s was discharged because %s - but that premise no longer holds: %s" % (bid, sk.loc, DISCHARGED_R7[k7][0][:140], why_not), sk.loc)
+                    bcnt["violations"] += 1
+                    continue
+                bcnt["violations"] += 1
+                ctx.bad("C02.R7", [bid, "charboundary"],
+                        "%s slices a str (%s) at %s with a byte offset that is not known to be a character boundary (not 0, not the length, not where a "
+                        "`find` match starts or ends): input with a multi-byte character across that offset panics ('byte index N is not a char boundary') "
+                        "even when the length test passes" % (bid, sk.what, sk.loc), sk.loc, {"offsets": [repr(i) for i in sk.index_lins]})
+                continue
+            if sk.kind == "divzero":
+                # R6: a divisor that derives from input is proven non-zero (a guard, a validator postcondition, `+ constant`); `/` and `%` by zero
+                # panic in every build profile
+                if getattr(sk, "delegated", None):
+                    dcnt["delegated to callers"] += 1
+                    continue
+                strict_d = sorted(t for t in sk.taint if strict_input(t, br))
+                if sk.proven:
+                    dcnt["proven non-zero"] += 1
+                    ctx.ok("C02.R6", [bid, "divisor", sk.bb], "divisor proven non-zero", sk.loc, nontrivial=bool(strict_d))
+                    continue
+                if not strict_d:
+                    dcnt["not decided"] += 1
+                    continue
+                ctx.saw(a.b)
+                tagd = strict_d[0] if strict_d[0] in ("input", "position") else "field " + strict_d[0][6:].split("::")[-1]
+                dcnt["violations"] += 1
+                ctx.bad("C02.R6", [bid, "divisor", tagd],
+                        "%s divides by a value read from the input (%s) at %s that no guard shows to be non-zero: an input with that field 0 panics with "
+                        "'attempt to divide by zero' in every build profile" % (bid, ", ".join(strict_d)[:140], sk.loc), sk.loc, {"goal": [repr(g) for g in sk.goals]})
+                continue
             if sk.kind == "overflow":
                 # R4: arithmetic in a NARROW unsigned type (u8/u16/u32) on input-derived operands: in a release build it wraps silently and every
                 # bound proven for the mathematical value is void; in a debug build it panics. Wide (usize/u64) additions of positions and all
                 # subtractions are not decided (their count is reported).
-                m_ = re.match(r"^(Add|Mul|Sub) in (u8|u16|u32)$", sk.what)
+                m_ = re.match(r"^(Add|Mul|Sub) in (u8|u16|u32)$", sk.what) or re.match(r"^(Sub) in (u64|usize|u128)$", sk.what)   # underflow does not depend on the width
                 strict_o = sorted(t for t in sk.taint if strict_input(t, br))
                 if not m_ and re.match(r"^(Add|Mul) in (u64|usize|u128)$", sk.what):
                     # wide arithmetic wraps only with operands that are themselves 64-bit input numbers (a u64 parsed from text, a u64 field):
@@ -663,7 +805,8 @@ def r3_bounds(ctx, ents, cl, krate_prefix="cascette_", discharged=DISCHARGED_R3)
                     for g in sk.goals:
                         for at_, v_ in (g.t.items() if g is not None else ()):
                             kd = a.atom_src.get(at_, ("", ""))[0]
-                            if v_ > 0 and kd != "position" and (kd == "input" or strict_input(kd, br)) and a.atom_ty.get(at_, "") in ("u64", "usize", "u128"):
+                            direct = at_[0] in ("fld", "ld") or kd == "input"
+                            if v_ > 0 and direct and kd != "position" and (kd == "input" or strict_input(kd, br)) and a.atom_ty.get(at_, "") in ("u64", "usize", "u128"):
                                 wide_in.append(kd)
                     if wide_in:
                         m_ = re.match(r"^(Add|Mul) in (u64|usize|u128)$", sk.what)
@@ -676,7 +819,19 @@ def r3_bounds(ctx, ents, cl, krate_prefix="cascette_", discharged=DISCHARGED_R3)
                     ctx.ok("C02.R4", [bid, "overflow", sk.what, sk.bb], "cannot exceed the type's range", sk.loc, nontrivial=True)
                     continue
                 ctx.saw(a.b)
-                tag = strict_o[0] if strict_o[0] == "input" else "field " + strict_o[0][6:].split("::")[-1]
+                tag = strict_o[0] if strict_o[0] in ("input", "position") else "field " + strict_o[0][6:].split("::")[-1]
+                k4 = ctx._stable("|".join(["C02.R4", bid, "overflow", sk.what, tag]))
+                if k4 in DISCHARGED_R4:
+                    why_not = DISCHARGED_R4[k4][1](prog) if DISCHARGED_R4[k4][1] else None
+                    if why_not is None:
+                        ocnt["discharged by key"] += 1
+                        ctx.ok("C02.R4", [bid, "overflow", sk.what, tag, "discharged", sk.bb], "discharged by reading: " + DISCHARGED_R4[k4][0], sk.loc,
+                               sample={"site": sk.loc, "reason": DISCHARGED_R4[k4][0]})
+                        continue
+                    ctx.bad("C02.R4", [bid, "overflow", sk.what, tag, "premise"],
+                            "%s: %s at %s was discharged because %s - but that premise no longer holds: %s" % (bid, sk.what, sk.loc, DISCHARGED_R4[k4][0][:140], why_not), sk.loc)
+                    ocnt["violations"] += 1
+                    continue
                 ocnt["violations"] += 1
                 ctx.bad("C02.R4", [bid, "overflow", sk.what, tag],
                         "%s: %s at %s on values read from the input (%s) can exceed the type's range: a release build wraps silently (a size of 256 becomes 0 - "
@@ -694,28 +849,44 @@ def r3_bounds(ctx, ents, cl, krate_prefix="cascette_", discharged=DISCHARGED_R3)
                 else:
                     ctx.ok(rule, [bid, sk.kind, "proven", sk.bb, len(sk.goals)], "in bounds", sk.loc, nontrivial=True)
                 continue
-            strict = sorted(t for t in sk.taint if strict_input(t, br))
-            if not strict and ("param" in sk.taint or any(at_[0] == "fld" and at_[1][0] == "arg" for g in sk.goals if g is not None for at_ in g.atoms())):
-                # a private helper's integer parameter: input-derived when an in-closure caller passes an input-derived value for it
+            # why this site depends on the input; the tag used in keys is picked by a FIXED priority so that it does not change when the engine
+            # learns to see one more reason: loop-carried > input-length > position > input > field > param
+            reasons = {}
+            if any(at_[0] == "phi" for g in sk.goals if g is not None for at_ in g.atoms()) and \
+                    any(kv[0] == "input" or strict_input(kv[0], br) for kv in a.atom_src.values()):
+                # control dependence: how often the loop runs and by how much the index advances is decided by the input even when no input
+                # VALUE flows into the index (`for _ in 0..page_count { .. offset += PAGE }`)
+                reasons["loop-carried"] = "loop"
+            for g in sk.goals:
+                for at_ in (g.atoms() if g is not None else ()):
+                    if at_[0] == "len" and at_[1][0] == "arg" and re.search(r"\[u8\]|str$", a.b.local_ty(at_[1][1]) or ""):
+                        # the LENGTH of the input is input: `data[0x150]` without a length test fails for a short enough input
+                        reasons["input-length"] = "input-length"
+            for t_ in sorted(sk.taint):
+                if t_ == "position":
+                    reasons["position"] = t_
+                elif t_ == "input":
+                    reasons["input"] = t_
+                elif strict_input(t_, br):
+                    reasons.setdefault("field", t_)
+            if not reasons and ("param" in sk.taint or any(at_[0] == "fld" and at_[1][0] == "arg" for g in sk.goals if g is not None for at_ in g.atoms())):
+                # a private helper's parameter: input-derived when an in-closure caller passes an input-derived value for it
                 for g in sk.goals:
                     for at_ in (g.atoms() if g is not None else ()):
                         if at_[0] == "fld" and at_[1][0] == "arg":
                             at_ = at_[1]
                         if at_[0] == "arg":
-                            strict += sorted("%s (passed by a caller for `%s`)" % (t, a.b.local_name(at_[1])) for t in getattr(a, "param_in", {}).get(at_[1], ()) if strict_input(t, br))
-                strict = sorted(set(strict))
-            if not strict and any(at_[0] == "phi" for g in sk.goals if g is not None for at_ in g.atoms()):
-                # control dependence: a loop-carried index in a function that reads input - how often the loop runs and by how much the index
-                # advances is decided by the input even when no input VALUE flows into the index (`for _ in 0..page_count { .. offset += PAGE }`)
-                if any(kv[0] == "input" or strict_input(kv[0], br) for kv in a.atom_src.values()):
-                    strict = ["loop"]
+                            for t_ in sorted(getattr(a, "param_in", {}).get(at_[1], ())):
+                                if strict_input(t_, br):
+                                    reasons.setdefault("param", "%s (passed by a caller for `%s`)" % (t_, a.b.local_name(at_[1])))
+            strict = [reasons[k_] for k_ in ("loop-carried", "input-length", "position", "input", "field", "param") if k_ in reasons]
             if not strict:
                 cnt["not decided"] += 1
                 nd[bid] += 1
                 continue
             ctx.saw(a.b)
             t0 = strict[0].split(" (passed")[0]
-            tag = t0 if t0 in ("input", "position") else "loop-carried" if t0 == "loop" else "field " + t0[6:].split("::")[-1]
+            tag = t0 if t0 in ("input", "position", "input-length") else "loop-carried" if t0 == "loop" else "field " + t0[6:].split("::")[-1]
             if " (passed" in strict[0]:
                 tag = "param <- " + tag
             if sk.kind == "precondition":
@@ -747,8 +918,50 @@ def r3_bounds(ctx, ents, cl, krate_prefix="cascette_", discharged=DISCHARGED_R3)
     ctx.ok(rule, ["summary"], "sites scanned", None, sample={"sites": dict(cnt), "helper_preconditions": {ctx._stable(k): [repr(x) for x in v] for k, v in sorted(req.items())},
                                                            "not_decided_by_function": {ctx._stable(k): v for k, v in nd.most_common(12)}})
     ctx.info("C02.R3 E-bounds: %s; %d helper precondition set(s)" % (dict(cnt), len(req)))
-    ctx.ok("C02.R4", ["summary"], "overflow asserts scanned", None, sample={"overflow_asserts": dict(ocnt)})
+    # R4 (sums): `iter.map(|e| e.field).sum()` adds with the build's overflow checks - a sum in the width of its items wraps (or panics) with two items
+    scnt = collections.Counter()
+    WIDTH = {"u8": 8, "u16": 16, "u32": 32, "u64": 64, "usize": 64, "u128": 128}
+    for bid in sorted(res):
+        b = prog.bodies[bid]
+        for c in b.calls:
+            if not re.search(r"\bIterator>?::(sum|product)$", c.name):
+                continue
+            m = re.search(r"\{closure@[^:]+:(\d+):", (c.t.get("at") or [""])[0])
+            kids = [x for x in prog.bodies.values() if x.parent == b.id and m and x.lines and x.lines[0] == int(m.group(1))]
+            if not kids:
+                scnt["not decided (no mapping closure)"] += 1
+                continue
+            worst = None
+            for k in kids:
+                a = res.get(k.id)
+                T = k.local_ty(0) or ""
+                if a is None or T not in WIDTH:
+                    continue
+                for i in k.return_blocks():
+                    so = getattr(a, "out_state", {}).get(i)
+                    v = so.env.get(0) if so else None
+                    for at_ in (v.atoms() if v is not None else ()):
+                        kd = a.atom_src.get(at_, ("", ""))[0]
+                        if at_[0] in ("fld", "ld") and strict_input(kd, br) and WIDTH.get(a.atom_ty.get(at_, ""), 0) >= WIDTH[T]:
+                            worst = (T, kd)
+            if worst is None:
+                scnt["items narrower than the sum, or lengths"] += 1
+                ctx.ok("C02.R4", [bid, "sum", c.bb], "sum of items that are narrower than the accumulator or are lengths of owned data", c.loc())
+                continue
+            ctx.saw(b)
+            scnt["violations"] += 1
+            ctx.bad("C02.R4", [bid, "sum", worst[0], "field " + worst[1][6:].split("::")[-1]],
+                    "%s sums %s items that are %s-wide numbers from the input (%s) at %s with Iterator::sum: two entries near the type's maximum overflow - a panic "
+                    "with overflow checks on (debug / test profile), a wrapped total otherwise; use checked_add / try_fold" % (bid, worst[0], worst[0], worst[1], c.loc()), c.loc())
+    ctx.floor("C02.R4", sum(scnt.values()), 7, "Iterator::sum / product sites in the parser closure")
+    ctx.info("C02.R4 sums: %s" % dict(scnt))
+    ctx.ok("C02.R4", ["summary"], "overflow asserts scanned", None, sample={"overflow_asserts": dict(ocnt), "sums": dict(scnt)})
     ctx.info("C02.R4 overflow asserts: %s" % dict(ocnt))
+    ctx.ok("C02.R6", ["summary"], "divisions scanned", None, sample={"divisions": dict(dcnt)})
+    ctx.floor("C02.R6", sum(dcnt.values()), 15, "division / remainder sites in the parser closure")
+    ctx.info("C02.R6 divisions: %s" % dict(dcnt))
+    ctx.info("C02.R7 str offsets: %s" % dict(bcnt))
+    ctx.floor("C02.R7", sum(bcnt.values()), 8, "str range-index / split_at sites in the parser closure")
 
 
 def recursive_cycles(prog, cl, prefixes=("cascette_",)):
